@@ -42,6 +42,7 @@ class Obligation:
         self.model = None
         self.time = 0.0
         self.backend = None
+        self.axioms = []
 
 
 FLOW_NEXT = ("next",)
@@ -73,6 +74,14 @@ class Engine:
         self.prefix = ""          # obligation name prefix
         self.paths_explored = 0
         self.spec_mode = 0
+        self.axioms = []
+        self._axiom_keys = set()
+
+    def add_axiom(self, ax):
+        k = ax.sexpr()
+        if k not in self._axiom_keys:
+            self._axiom_keys.add(k)
+            self.axioms.append(ax)
 
     # ------------------------------------------------------------------ solver helpers
     def feasible(self, st, extra=None):
@@ -88,6 +97,8 @@ class Engine:
         s = z3.Solver()
         s.set("timeout", self.feas_timeout_ms)
         s.add(*conj)
+        if self.axioms:
+            s.add(*self.axioms)
         t0 = time.time()
         r = s.check()
         self.solver_time += time.time() - t0
@@ -122,6 +133,7 @@ class Engine:
             goal = z3.BoolVal(goal)
         tr = "".join(st.trace)
         ob = Obligation(self.prefix + name + ("@" + tr if tr else ""), st.pc, goal, kind, meta=meta)
+        ob.axioms = self.axioms
         ob.meta.setdefault("trace", tr)
         ob.meta.setdefault("base", self.prefix + name)
         self.obligations.append(ob)
